@@ -79,6 +79,8 @@ class Monitor:
         self.cached_entered = []  # Cached objects whose evaluate implementation ran (this op)
         self.cache_lookups = set()  # (id(evaluatable), id(cache)) of the CacheExistsRequests seen (this op)
         self.values_seen = set()  # marker constants whose Value node was evaluated through a request (this op)
+        self.option_keys = set()  # keys of the plain Options evaluated through a request (this op)
+        self.evaluated_ok = set()  # id() of the objects whose evaluate request completed (this op)
         self.violation = None
 
     def handlers(self, only=None):
@@ -100,10 +102,14 @@ class Monitor:
             self.seen[op] = self.seen.get(op, 0) + 1
             if op == "evaluate" and type(entry[1]) is ltypes.Value and isinstance(entry[1].value, str) and entry[1].value.startswith("pv"):
                 self.values_seen.add(entry[1].value)
+            if op == "evaluate" and type(entry[1]) is Option:
+                self.option_keys.add(entry[1].key)
             try:
                 out = default(request)
             finally:
                 self.stack.pop()
+            if op == "evaluate":
+                self.evaluated_ok.add(id(entry[1]))
             if op == "evaluate" and type(entry[1]) is Option and entry[2] == 0 and self.violation is None:
                 self.violation = ("option-evaluated-without-type-validation-request", {"option": repr(entry[1])})
             return out
@@ -204,10 +210,11 @@ class C18(HistoryProperty):
 
     def gen_case(self, rng, tier):
         subst = rng.random() < 0.5
-        cfg = gen.swarm_cfg(rng, off=("shape_change",) + (("cached", "derive") if subst else ()), on=("dsclass", "fapp"))
+        cfg = gen.swarm_cfg(rng, off=("shape_change",) + (("cached", "derive") if subst else ()), on=("dsclass", "fapp", "namespace"))
+        cfg["namespace_keys"] = True
         cfg["lib_steps"] = rng.choice([False, False, "all"])  # pipeline steps taken from labrea.functions (the library's own helpers)
         spec = gen.gen_spec(rng, cfg)
-        inner = [n["id"] for n in spec["nodes"] if n["k"] in ("switch", "case", "coalesce", "bind", "map", "template", "apply", "dsclass", "fapp")]
+        inner = [n["id"] for n in spec["nodes"] if n["k"] in ("switch", "case", "coalesce", "bind", "map", "template", "apply", "dsclass", "fapp", "namespace")]
         spec["roots"] = list(dict.fromkeys(spec["roots"] + rng.sample(inner, min(len(inner), rng.randint(0, 2)))))
         rec = None
         if rng.random() < 0.2:
@@ -299,6 +306,7 @@ class C18(HistoryProperty):
                         did_pass = True
                         mon.violation = None
                         mon.cached_entered, mon.cache_lookups, mon.values_seen = [], set(), set()
+                        mon.option_keys, mon.evaluated_ok = set(), set()
                         mon.active = True
                         with lrt.handle(mon.handlers(op.get("only"))):
                             if op.get("only") is None:
@@ -328,6 +336,14 @@ class C18(HistoryProperty):
                                     if lost:
                                         res.violate("value-reached-function-without-evaluate-request", op_index=i, node=op["node"], o=op["o"], function=ev[3], constants=lost)
                                         break
+                            for nsn in [n for n in spec["nodes"] if n["k"] == "namespace"] if not res.violations else []:
+                                # an option namespace evaluated as a whole evaluates each declared member: operations like any other
+                                if id(w.prog.obj[nsn["id"]]) in mon.evaluated_ok:
+                                    lost = [k for k in gen.namespace_keys(nsn) if k not in mon.option_keys]
+                                    if lost:
+                                        res.violate("namespace-member-evaluated-without-request", op_index=i, node=op["node"], o=op["o"], namespace=nsn["id"], members=lost)
+                                        break
+                                    res.bump("namespaces_checked_member_by_member")
                             if res.violations:
                                 break
                         if mon.violation and op.get("only") is None:
